@@ -38,4 +38,33 @@ def ImagePair.partialValidByBlock (p : ImagePair) (model : Model) (kh kw : Nat) 
   let bc := p.blockCols sc vc kc
   (p.restrict br.pin bc.pin br.oin bc.oin).partialValid model kh kw n0 n1 r c
 
+/-! ### source-grid processing (`SrcSpaceModel.fit` with `mask_partial`): cover of a source pixel by valid reference pixels,
+    parameters on the source grid, erosion on the source grid; no re-projection of the mask -/
+
+/-- the reference pixels (index window along one axis) that meet source pixel `r` -/
+def refUnder (S R : Axis) (r : Int) : Win1 := expandTo S R ⟨r, r + 1⟩
+
+/-- every reference pixel position that meets source pixel `(r, c)` holds a valid pixel of the reference window that was read -/
+def ImagePair.coverSrc (p : ImagePair) (r c : Int) : Bool :=
+  (refUnder p.Sr p.Rr r).indices.all fun a => (refUnder p.Sc p.Rc c).indices.all fun b => (p.refRead a b).isSome
+
+/-- parameters at source pixel `(r, c)` of a source-grid run (`none` outside the image) -/
+def ImagePair.paramsSrc (p : ImagePair) (model : Model) (kh kw : Nat) (n0 n1 : Rat) (m : Resampling) (r c : Int) :
+    Option Params :=
+  if 0 ≤ r ∧ r < p.Sr.n ∧ 0 ≤ c ∧ c < p.Sc.n then
+    fitAt (p.blockSrc m) model kh kw false none n0 n1 (fun _ _ => none) r.toNat c.toNat
+  else none
+
+def ImagePair.keepInSrc (p : ImagePair) (model : Model) (kh kw : Nat) (n0 n1 : Rat) (m : Resampling) (r c : Int) : Bool :=
+  p.coverSrc r c && (p.paramsSrc model kh kw n0 n1 m r c).isSome
+
+def ImagePair.keepErodedSrc (p : ImagePair) (model : Model) (kh kw : Nat) (n0 n1 : Rat) (m : Resampling) (r c : Int) : Bool :=
+  (List.range (kh + 2)).all fun (di : Nat) => (List.range (kw + 2)).all fun (dj : Nat) =>
+    p.keepInSrc model kh kw n0 n1 m (r - (((kh + 2) / 2 : Nat) : Int) + di) (c - (((kw + 2) / 2 : Nat) : Int) + dj)
+
+/-- validity of corrected source pixel `(r, c)` with partial masking on the source grid -/
+def ImagePair.partialValidSrcGrid (p : ImagePair) (model : Model) (kh kw : Nat) (n0 n1 : Rat) (m : Resampling) (r c : Int) :
+    Bool :=
+  (p.src r c).isSome && p.keepErodedSrc model kh kw n0 n1 m r c
+
 end Homonim
